@@ -11,19 +11,21 @@ func VerifPrototextString(in string) string { return prototextString(in) }
 
 type verifIdx struct {
 	protoreflect.FieldDescriptor
-	idx int
+	idx  int
+	name string
 }
 
-func (v verifIdx) Index() int { return v.idx }
+func (v verifIdx) Index() int                     { return v.idx }
+func (v verifIdx) FullName() protoreflect.FullName { return protoreflect.FullName(v.name) }
 
 // VerifLocLess evaluates the real optionsByLocation.Less on two options.
-func VerifLocLess(aHas bool, aLine int32, aIdx int, bHas bool, bLine int32, bIdx int) bool {
-	mk := func(has bool, line int32, idx int) *OptionDefinition {
-		o := &OptionDefinition{Desc: verifIdx{idx: idx}}
+func VerifLocLess(aHas bool, aLine int32, aIdx int, aName string, bHas bool, bLine int32, bIdx int, bName string) bool {
+	mk := func(has bool, line int32, idx int, name string) *OptionDefinition {
+		o := &OptionDefinition{Desc: verifIdx{idx: idx, name: name}}
 		if has {
 			o.SourceLocation = &OptionSourceLocation{StartLine: line}
 		}
 		return o
 	}
-	return optionsByLocation{mk(aHas, aLine, aIdx), mk(bHas, bLine, bIdx)}.Less(0, 1)
+	return optionsByLocation{mk(aHas, aLine, aIdx, aName), mk(bHas, bLine, bIdx, bName)}.Less(0, 1)
 }
